@@ -140,18 +140,19 @@ def lookup (cb : Cb TA M OA U Q E) (t : Track TA M OA) (q : Q) : Bool :=
 
 def status (cb : Cb TA M OA U Q E) (t : Track TA M OA) : Except E Status := cb.baked t.attrs t.obs
 
+/-- the `for (cls, oa, feat, upd) in self.observations` loop of `TrackBuilder::build` -/
+def buildLoop (cb : Cb TA M OA U Q E) : Track TA M OA → Nat → List (Nat × Option OA × Option U) →
+    Except (Err E) (Track TA M OA) × Nat
+  | t, n, [] => (.ok t, n)
+  | t, n, ob :: rest =>
+    match addObservation cb t ob.1 ob.2.1 ob.2.2 with
+    | (.ok (), t', k) => buildLoop cb t' (n + k) rest
+    | (.error e, _, k) => (.error e, n + k)
+
 /-- `TrackBuilder::build`: `Track::new` then `add_observation` for every queued observation,
 stopping at the first failure. Returns the notifications emitted as well. -/
 def build (cb : Cb TA M OA U Q E) (id : Nat) (m : M) (a : TA)
     (obs : List (Nat × Option OA × Option U)) : Except (Err E) (Track TA M OA) × Nat :=
-  let (t0, n0) := new id m a
-  obs.foldl (fun (acc : Except (Err E) (Track TA M OA) × Nat) ob =>
-    match acc with
-    | (.error e, n) => (.error e, n)
-    | (.ok t, n) =>
-      let (r, t', k) := addObservation cb t ob.1 ob.2.1 ob.2.2
-      match r with
-      | .ok () => (.ok t', n + k)
-      | .error e => (.error e, n + k)) (.ok t0, n0)
+  buildLoop cb (new id m a).1 (new (OA := OA) id m a).2 obs
 
 end SimVerif.Track
